@@ -119,19 +119,35 @@ Theorem C06_dedup_suffix_local :
 Proof. exact suffix_for_local. Qed.
 Print Assumptions C06_dedup_suffix_local.
 
-(** ... so every reordering of the path groups renames every index the same way.
-    PARTIAL: the side condition (an index is listed under one path only) is an invariant of
-    [build_groups] (an index is entered once, under its own path) that is not proved here;
-    full statement:  forall r m, build_groups r = Ok m -> forall m', Permutation m m' ->
-    forall i, suffix_for m i = suffix_for m' i. *)
-Theorem C06_dedup_order_free_partial :
+(** ... so every reordering of path groups in which an index is listed under one path
+    only renames every index the same way *)
+Theorem C06_dedup_suffix_perm :
   forall (m1 m2 : groups) i,
     Permutation m1 m2 ->
     (forall e1 e2 g1 g2, In e1 m1 -> In e2 m1 -> In g1 (snd e1) -> In g2 (snd e2) ->
                          In i g1 -> In i g2 -> e1 = e2) ->
     suffix_for m1 i = suffix_for m2 i.
 Proof. exact suffix_for_perm_disjoint. Qed.
-Print Assumptions C06_dedup_order_free_partial.
+Print Assumptions C06_dedup_suffix_perm.
+
+(** [dedup_order_free]: [ensure_unique] is the sanity pass, the grouping, and one renaming
+    pass ([rename_go m], Proofs/OrderFree.v) that looks the groups map up per index; the
+    groups map built by [build_groups] lists every index under its own path only (proved
+    invariant), hence visiting the path groups in ANY order [m'] gives every index the same
+    suffix and the same de-duplicated registry *)
+Theorem C06_dedup_order_free :
+  forall r,
+    ensure_unique r =
+    (let* _ := sanity r in let* m := build_groups r in Ok (rename_go m 0%N r)) /\
+    forall m m',
+      build_groups r = Ok m -> Permutation m m' ->
+      (forall i, suffix_for m i = suffix_for m' i) /\ rename_go m 0%N r = rename_go m' 0%N r.
+Proof.
+  exact (fun r => conj (ensure_unique_unfold r)
+                       (fun m m' Hb P => conj (build_groups_suffix_perm r m m' Hb P)
+                                              (ensure_unique_order_free r m m' Hb P))).
+Qed.
+Print Assumptions C06_dedup_order_free.
 
 (** the hypotheses are satisfiable (Proofs/DerivesExamples.v): two registries that are
     reorderings with repetitions of each other on the cyclic registry with a generic root;
